@@ -784,4 +784,10 @@ theorem copy_novars_counterexample :
   revert h1
   decide +kernel
 
+/-- assigning the level-edge attribute in place (same number of edges) keeps the property -/
+theorem coherent_setvg (s : St) (lv : List Rat) (h : Coherent s) (hl : lv.length = s.nL + 1) :
+    Coherent (setVglvls s lv) := by
+  obtain ⟨h1, h2, h3, h4, h5, h6, _⟩ := h
+  exact ⟨h1, h2, h3, h4, h5, h6, hl⟩
+
 end Props.C10
